@@ -585,6 +585,42 @@ def contains(t, sub):
     return any(x == sub for x in subterms(t))
 
 
+def place_root(fn, op):
+    """(local, projection) an operand ultimately copies: follows single-definition `_a = use(place)` chains (moves / copies of
+    a place, possibly a field of a tuple) and accumulates the projection; stops at anything computed"""
+    proj = list(op.get("p", [])) if isinstance(op, dict) else []
+    seen = set()
+    while isinstance(op, dict) and "l" in op and op["l"] not in seen:
+        seen.add(op["l"])
+        ds = [d for d in fn.defs().get(op["l"], []) if not fn.is_cleanup(d[0]) and d[2] in ("assign", "call")]
+        if len(ds) != 1 or ds[0][2] != "assign":
+            break
+        rv = ds[0][3]["rv"]
+        src = None
+        if rv["k"] == "use" and "l" in rv["ops"][0]:
+            src = rv["ops"][0]
+        elif rv["k"] == "ref" and rv.get("place") is not None and not [e for e in proj if e != "*"]:
+            src = rv["place"]          # `&x.1`: the place behind a reference handed on unchanged
+        if src is None:
+            break
+        proj = list(src.get("p", [])) + proj
+        op = {"l": src["l"]}
+    return (op.get("l") if isinstance(op, dict) else None), [e for e in proj if e != "*"]
+
+
+def paired_alternatives(fn, op_a, op_b):
+    """[(a_i, b_i)] origin terms of two operands taken together: when both are fields of one tuple local assigned in several
+    branches (`let (m, p) = if .. {(0, x)} else {(1, y)}`) the alternatives are paired branch by branch; otherwise one pair"""
+    la, pa = place_root(fn, op_a)
+    lb, pb = place_root(fn, op_b)
+    if la is not None and la == lb and len(pa) == 1 and len(pb) == 1 and pa != pb and pa[0][1:].isdigit() and pb[0][1:].isdigit():
+        t = local_origin(fn, la, 0, frozenset(), 40)
+        alts = t[1] if t[0] == "phi" else (t,)
+        if alts and all(x[0] == "agg" and len(x[2]) > max(int(pa[0][1:]), int(pb[0][1:])) for x in alts):
+            return [(simplify(x[2][int(pa[0][1:])]), simplify(x[2][int(pb[0][1:])])) for x in alts]
+    return [(origin(fn, op_a), origin(fn, op_b))]
+
+
 def closures_in_term(t, out=None):
     """ids of closure bodies constructed inside a term"""
     if out is None:
